@@ -167,6 +167,9 @@ class Ctx:
                         src = it.args[0]
                         if src.op == "agg" and src.args[0] == "array":
                             self.side.append(atom(t).add(Lin(len(src.args) - 1), -1))
+                        elif src.op == "chunks":
+                            # at most one chunk per element of the chunked sequence (chunk size >= 1)
+                            self.side.append(atom(t).add(self.lin(mk("len", src.args[0])), -1))
                         else:
                             self.side.append(atom(t).add(self.lin(mk("len", src)), -1))
             return atom(t)
